@@ -89,9 +89,25 @@ Definition decimal_int (s : string) : option Z :=
   | None => None
   end.
 
-Definition denotes_int (s : string) (z : Z) : bool :=
+Definition denotes_int0 (s : string) (z : Z) : bool :=
   (match parse_signed s with Some z' => z =? z' | None => false end) ||
   (match decimal_int s with Some z' => z =? z' | None => false end).
+
+(* surrounding blanks do not change which integer a text denotes (an implementation may trim or reject) *)
+Definition is_ws (c : ascii) : bool :=
+  Ascii.eqb c " " || Ascii.eqb c "009" || Ascii.eqb c "010" || Ascii.eqb c "013".
+Fixpoint ltrim (s : string) : string :=
+  match s with String c r => if is_ws c then ltrim r else s | EmptyString => EmptyString end.
+Fixpoint rtrim (s : string) : string :=
+  match s with
+  | EmptyString => EmptyString
+  | String c r => match rtrim r with
+                  | EmptyString => if is_ws c then EmptyString else String c EmptyString
+                  | r' => String c r'
+                  end
+  end.
+Definition denotes_int (s : string) (z : Z) : bool :=
+  denotes_int0 s z || denotes_int0 (rtrim (ltrim s)) z.
 
 (* the exact image of a scalar document value at a primitive kind *)
 Definition leaf_agrees (k : kind) (d : jv) (v : val) : bool :=
